@@ -44,7 +44,8 @@ EXACT_SCALARS = [2.0, -1.0, 0.5, -2.0, 1.5, 3.0, -0.5, 4.0]
 GENERAL_SCALARS = [0.1, -0.3, 1.0 / 3, 2.5, -1.7, 0.7]
 
 
-EXPECTED_BRANCHES = fc.history_expected_branches()
+def EXPECTED_BRANCHES(ctx=None):
+    return fc.history_expected_branches() + fc.wide_expected_branches('C09')
 
 # --------------------------------------------------------------------------
 # recipe generator (functionals WITH a gradient)
@@ -601,6 +602,7 @@ def run(ctx, deep=False):
             check_tree(ctx, r, S, 'exact' if exact else 'general', via_ops, lines, pend,
                        n_pts=2 if quick else 3)
     fc.history_stream(ctx, 'C09', 12 if quick else 60)
+    fc.wide_stream(ctx, 'C09', 2 if quick else 8)
     outs = core.run_driver('C09', lines)
     compare(ctx, pend, outs)
     ctx.extra['model_lines'] = len(lines)
@@ -627,6 +629,8 @@ def search(ctx, broken):
 def replay(ctx, case):
     if case.get('history'):
         return fc.history_replay(case)
+    if case.get('wide'):
+        return fc.wide_replay(case)
     """Re-run the oracle on one recorded case; returns a description if it still fails."""
     S = fc.get_space(case['space'])
     r = case['recipe']
